@@ -178,29 +178,25 @@ theorem tx_vin_length (p : Psbt) (t : Tx) (h : p.tx = some t) : t.vin.length = p
     simpa using optAll_length _ _ hvin
   · cases h
 
-/-- taproot key path: BIP341 digest over all previous outputs of the PSBT -/
+/-- taproot key path: BIP341 digest over all previous outputs of the PSBT, for every hash type (`none` on both sides
+    where BIP341 defines no digest, 0x80 included) -/
 theorem digest_taproot_keypath (sha : Bytes → Bytes) (p : Psbt) (i f : Nat) (s : InScope) (u : TxOut) (t : Tx)
     (us : List TxOut) (hs : p.inputs[i]? = some s) (hu : s.utxo = some u) (htap : isTaprootSpk u.spk = true)
-    (ht : p.tx = some t) (hus : optAll (p.inputs.map InScope.utxo) = some us) (hf : validTaprootFlag f = true) :
+    (ht : p.tx = some t) (hus : optAll (p.inputs.map InScope.utxo) = some us) :
     psbtSighash sha p i f none = bip341 sha t i (us.map (·.spk)) (us.map (·.value)) f none none := by
-  have hlen : (us.map (·.spk)).length = t.vin.length := by
-    rw [List.length_map, optAll_length _ _ hus, List.length_map, tx_vin_length p t ht]
-  have := C01.taproot_eq_bip341 sha t i (us.map (·.spk)) (us.map (·.value)) f none none 0xC0 none hf hlen
-    (by decide)
+  have := C01.taproot_eq_bip341 sha t i (us.map (·.spk)) (us.map (·.value)) f none none 0xC0 none (by decide)
   simp only [Option.isSome_none, Bool.false_eq_true, if_false, C01.leafOf, Option.map_none] at this
   simp only [psbtSighash, hs, hu, ht, htap, if_true, hus, this]
 
-/-- taproot script path: BIP341 digest with the leaf (script, leaf version, no code separator) -/
+/-- taproot script path: BIP341 digest with the leaf (script, leaf version, no code separator), for every hash type -/
 theorem digest_taproot_leaf (sha : Bytes → Bytes) (p : Psbt) (i f : Nat) (s : InScope) (u : TxOut) (t : Tx)
     (us : List TxOut) (script : Bytes) (lv : Nat) (hlv : lv < 256)
     (hs : p.inputs[i]? = some s) (hu : s.utxo = some u) (htap : isTaprootSpk u.spk = true)
-    (ht : p.tx = some t) (hus : optAll (p.inputs.map InScope.utxo) = some us) (hf : validTaprootFlag f = true) :
+    (ht : p.tx = some t) (hus : optAll (p.inputs.map InScope.utxo) = some us) :
     psbtSighash sha p i f (some (script, lv))
       = bip341 sha t i (us.map (·.spk)) (us.map (·.value)) f none
           (some { script := script, version := lv, codesepPos := 0xffffffff }) := by
-  have hlen : (us.map (·.spk)).length = t.vin.length := by
-    rw [List.length_map, optAll_length _ _ hus, List.length_map, tx_vin_length p t ht]
-  have := C01.taproot_eq_bip341 sha t i (us.map (·.spk)) (us.map (·.value)) f none (some script) lv none hf hlen hlv
+  have := C01.taproot_eq_bip341 sha t i (us.map (·.spk)) (us.map (·.value)) f none (some script) lv none hlv
   simp only [Option.isSome_some, if_true, C01.leafOf, Option.map_some, Option.getD_none] at this
   simp only [psbtSighash, hs, hu, ht, htap, if_true, hus, this]
 
